@@ -471,8 +471,11 @@ theorem dropTable_pt (h0 : A []) (s : Pkg) (name : List Char) (hp : PT C A s.poo
     | ok u =>
       cases u
       simp only
-      have g2 := deleteRows_pt C A h0 s1 Gen.nameValidation.toList (eqStr "Table" name) g1
-      generalize hr2 : deleteRows s1 Gen.nameValidation.toList (eqStr "Table" name) = r2 at g2
+      have g2 : PT C A (deleteValidation s1 name).1.pool := by
+        rcases MsiProofs.DeleteValidation.deleteValidation_cases s1 name with e | e <;> rw [e]
+        · exact deleteRows_pt C A h0 s1 Gen.nameValidation.toList (eqStr "Table" name) g1
+        · exact g1
+      generalize hr2 : deleteValidation s1 name = r2 at g2
       obtain ⟨s2, res2⟩ := r2
       cases res2 with
       | err k => exact g2
